@@ -220,8 +220,8 @@ def main():
         if name in merged["scenarios"] and not merged["scenarios"][name]:
             print(f"NOTE: finding {name} listed as known no longer reproduces")
 
-    floor_msgs = plans.coverage_floor(prop, tier, merged)
-    inconclusive += floor_msgs
+    if not replay:  # a replay runs one recorded case: coverage floors do not apply
+        inconclusive += plans.coverage_floor(prop, tier, merged)
 
     wall = time.time() - t0
     # ---- verdict
